@@ -107,8 +107,9 @@ class World:
             if verdict == M.PERMIT:
                 apply()
             else:
-                # dont-care accepted: the model cannot follow; stop using the stream
-                if sid is not None:
+                # dont-care accepted: the model cannot follow; stop using the stream - unless the call is an
+                # ALTSVC or WINDOW_UPDATE frame, which never moves a stream to another state
+                if sid is not None and what not in ('pushed-stream', 'pointless-but-legal'):
                     self.tainted.add(sid)
             return 'ok'
         self.rejected += 1
